@@ -109,8 +109,26 @@ def run(ck):
             what = "prover key bytes" if fresh[0] != aged[0] else ("verifier bytes" if fresh[1] != aged[1] else "proof bytes")
             ck.violation(f"{what} for label B depend on what the process did before: a fresh process and one that first used the {ln}-byte label A (equal length, differing only at byte {pos}) disagree",
                          {"failing_input_found": True, "label_A_hex": la.hex(), "label_B_hex": bytes(lb).hex(), "circuit": small, "fresh": [x[:80] for x in fresh], "after_history": [x[:80] for x in aged]}, key="history")
+    # ---- what the proving THREAD did before: a larger circuit proved first, then a smaller one whose gate count is not a
+    # power of two; the second proof must equal the one a fresh process gives (buffers reused across proofs must not leak)
+    bigc = ["w " + hx(rng.scalar()), "w " + hx(rng.scalar()), "pub " + hx(rng.scalar())] + ["gmul 1 0 0 0 0 3 - $0 $1 0 0", "gadd 0 1 1 0 0 5 - $0 $1 0 0"] * 40 + ["rbits 32 $0"]
+    for hj, smallc in enumerate([["w 5", "w 7", "gmul 1 0 0 0 0 0 - $0 $1 0 0", "pub 23", "rbits 8 $0"], ["w 9", "w 2"] + ["gadd 0 1 1 0 0 1 - $0 $1 0 0"] * 9]):
+        def thist(with_history):
+            H = protocol.Script(); H.cmd("pp", "pp", 1 << 9, 4)
+            H.circuit("big", bigc); H.circuit("small", smallc)
+            H.cmd("compile", "kbig", "pp", "6161", "big"); H.cmd("compile", "ks", "pp", "6262", "small")
+            if with_history:
+                H.cmd("prove", "p0", "kbig", "big", 17); H.cmd("prove", "p00", "kbig", "big", 18)
+            ids = (H.cmd("prove", "p1", "ks", "small", 19), H.cmd("prove", "p2", "ks", "small", 19))
+            r = protocol.run(H, f"c18_t{hj}_{int(with_history)}")
+            return tuple(r.get(i, "").split(" rng=")[0] for i in ids)
+        fresh, aged = thist(False), thist(True)
+        ck.count(("thread-history", hj), kind="thread history")
+        if fresh != aged or fresh[0] != fresh[1]:
+            ck.violation("proof bytes of a small circuit depend on what the proving thread proved before (a larger circuit first): fresh process and warmed-up process disagree under the same RNG stream",
+                         {"failing_input_found": True, "first_proved": bigc[:4] + ["..."], "circuit": smallc, "fresh": [x[:80] for x in fresh], "after_history": [x[:80] for x in aged]}, key="thread-history")
     return ck.finish(level="proof",
-        rule="impl vs impl, no model bytes: process history (same call after / without earlier calls with a same-length label sharing a 32..63-byte prefix); prover/verifier key digests and proof bytes for a circuit with domain 2^12 (thorough: 2^11, 2^12, 2^13; many copy classes and public inputs) under rayon pools {1,2,3,4,5,8,16,17} (thorough 1..17, 32) with the same scripted RNG; the same script in a second process (fresh hash seeds) and in a harness built without the std feature (alloc-only, serial code paths); 8 (16) threads proving and verifying concurrently on shared keys vs sequentially",
+        rule="impl vs impl, no model bytes: process history (same call after / without earlier calls with a same-length label sharing a 32..63-byte prefix; a small circuit proved after a larger one on the same thread); prover/verifier key digests and proof bytes for a circuit with domain 2^12 (thorough: 2^11, 2^12, 2^13; many copy classes and public inputs) under rayon pools {1,2,3,4,5,8,16,17} (thorough 1..17, 32) with the same scripted RNG; the same script in a second process (fresh hash seeds) and in a harness built without the std feature (alloc-only, serial code paths); 8 (16) threads proving and verifying concurrently on shared keys vs sequentially",
         assumptions=["rayon join / par_iter().map().collect() / par_chunks_mut().for_each on disjoint chunks have their sequential meaning (guaranteed by Rust's aliasing rules, not mechanised)",
                      "actual interleavings, the OS scheduler and separate compilation are covered by the run only"],
         checker_cmd=proofgate.CHECKER_CMD, trusted_base=proofgate.TRUSTED)
